@@ -36,6 +36,7 @@ profile. They exist because seeded changes of round 2 needed them to manifest (D
  p_srcdir_in_root_download  a downloaded module declared in the root file (no dldir) and a second module whose `srcdir:` is a sub-directory of
                       the download directory
  p_provided_name_is_module  a name that is both a real module and provided by a build-dependency module; a third module depends on the name
+ p_download_with_srcdir  a downloaded module with an explicit `srcdir:` (the download goes there, and so does its tag file)
  p_subdirs_later_doc  a multi-document file listing a sub-directory from a document that is not the first, with different defaults
 """
 import copy, random
@@ -537,6 +538,23 @@ def provided_name_is_module(p, rng):
         a[kk] = ["pnm_backend", "pnm", "pnmuser"] + list(a.get(kk) or [])
 
 
+def download_with_srcdir(p, rng):
+    root = _root(p)
+    dflt = next((c for c in root.get("contexts") or [] if c.get("name") == "default"), None)
+    if dflt is None or not any(r.get("name") == "GIT_DOWNLOAD" for r in dflt.get("rules") or []):
+        return
+    mods = root.setdefault("modules", [])
+    m = {"name": "dws", "srcdir": rng.choice(["vendor/dws", "third_party/dws/src"]), "sources": ["dws.c"],
+         "download": {"git": {"url": "https://example.invalid/dws.git", "commit": "0123abcd"}}}
+    if rng.random() < 0.3 and any(r.get("name") == "GIT_PATCH" for r in dflt.get("rules") or []):
+        m["download"]["patches"] = ["dws.patch"]
+    mods.append(m)
+    mods.append({"name": "dwsuser", "sources": ["dwsuser.c"], rng.choice(["depends", "uses"]): ["dws"]})
+    for k, a, pa, dd in list(_modules(p, ("apps",)))[:2]:
+        kk = "selects" if "selects" in a or "depends" not in a else "depends"
+        a[kk] = ["dws", "dwsuser"] + list(a.get(kk) or [])
+
+
 def subdirs_later_doc(p, rng):
     docs = p["files"]["laze-project.yml"]
     root = docs[0]
@@ -554,7 +572,7 @@ def subdirs_later_doc(p, rng):
 
 
 SHAPES = [("p_rule_rename_chain", rule_rename_chain), ("p_ifthen_feature_cond", ifthen_feature_cond), ("p_empty_blockallow", empty_blockallow),
-          ("p_rule_export_escape", rule_export_escape), ("p_optsrc_same_guard", optsrc_same_guard), ("p_subdirs_later_doc", subdirs_later_doc), ("p_defaults_uses_removed", defaults_uses_removed), ("p_app_custom_build", app_custom_build),
+          ("p_rule_export_escape", rule_export_escape), ("p_optsrc_same_guard", optsrc_same_guard), ("p_subdirs_later_doc", subdirs_later_doc), ("p_download_with_srcdir", download_with_srcdir), ("p_defaults_uses_removed", defaults_uses_removed), ("p_app_custom_build", app_custom_build),
           ("p_same_dldir_downloads", same_dldir_downloads), ("p_desc_with_builder", desc_with_builder), ("p_srcdir_in_root_download", srcdir_in_root_download),
           ("p_provided_name_is_module", provided_name_is_module), ("p_self_named_unique", self_named_unique), ("p_cli_comma_define", cli_comma_define), ("p_custom_build_no_out", custom_build_no_out), ("p_two_patched_downloads", two_patched_downloads), ("p_shadowed_provider", shadowed_provider),
           ("p_dup_listing", dup_listing), ("p_ctx_shuffle", ctx_shuffle), ("p_app_dup", app_dup), ("p_rule_field_variant", rule_field_variant),
